@@ -212,6 +212,9 @@ func (r *Run) Finish() int {
 	newV := 0
 	var knownHit []string
 	replayDir := filepath.Join(Root(), "replays", r.ID)
+	if d := os.Getenv("VERIF_REPLAYS"); d != "" {
+		replayDir = filepath.Join(d, r.ID) // runs against a scratch copy keep /verif/replays untouched
+	}
 	// replay files describe this run only: drop what an earlier run left behind
 	if old, _ := filepath.Glob(filepath.Join(replayDir, "*.json")); len(old) > 0 {
 		for _, f := range old {
